@@ -19,6 +19,7 @@ var redirects = map[string]string{
 	"crypto/md5.Sum": "SumMD5", "crypto/sha1.Sum": "SumSHA1", "crypto/sha256.Sum256": "SumSHA256", "crypto/sha256.Sum224": "SumSHA224",
 	"crypto/sha512.Sum512": "SumSHA512", "crypto/sha512.Sum384": "SumSHA384", "crypto/sha512.Sum512_224": "SumSHA512_224", "crypto/sha512.Sum512_256": "SumSHA512_256",
 	"crypto/hmac.New": "NewHMAC", "net.IPv4": "IPv4", "(net.IP).String": "IPString",
+	"crypto/aes.NewCipher": "NewCipher", "crypto/cipher.NewGCMWithNonceSize": "NewGCMWithNonceSize", "crypto/cipher.NewGCM": "NewGCM", "crypto/cipher.NewCTR": "NewCTR",
 }
 
 func registerStdIntrinsics(m map[string]intrinsic) {
@@ -34,6 +35,116 @@ func registerStdIntrinsics(m map[string]intrinsic) {
 			return r.callSSA(caller, f, args, nil)
 		}
 	}
+	catBytes := func(r *Run, bs []*Term) *Term {
+		t := bs[0]
+		for _, b := range bs[1:] {
+			t = r.ctx().Concat(t, b)
+		}
+		return t
+	}
+	splitBytes := func(r *Run, t *Term, label string) Value {
+		n := t.w / 8
+		o := r.allocArray(types.Typ[types.Uint8], n, label)
+		for i := 0; i < n; i++ {
+			hi := (n-i)*8 - 1
+			o.cells[i] = r.ctx().Extract(t, hi, hi-7)
+		}
+		return Slice{obj: o, len: n, cap: n}
+	}
+	m["vh/vstub.BlockUF"] = func(r *Run, caller *frame, fn *ssa.Function, args []Value) Value {
+		dir := int(r.Concretize(r.termOf(args[0], "block dir"), 2, "block dir"))
+		key := catBytes(r, r.sliceBytes(args[1].(Slice)))
+		src := catBytes(r, r.sliceBytes(args[2].(Slice)))
+		r.stubs["AES block as an uninterpreted keyed permutation (D_k(E_k(x)) = x)"] = true
+		names := [2]string{fmt.Sprintf("aesE%d", key.w), fmt.Sprintf("aesD%d", key.w)}
+		// inverse on syntactic match
+		if src.op == OUF && src.name == names[1-dir] && src.a[0] == key {
+			return splitBytes(r, src.a[1], "aes-inverse")
+		}
+		return splitBytes(r, r.ctx().UF(names[dir], 128, key, src), "aes-block")
+	}
+	m["vh/vstub.SealUF"] = func(r *Run, caller *frame, fn *ssa.Function, args []Value) Value {
+		r.stubs["AES-GCM Seal as an uninterpreted function of (key, nonce, plaintext, aad)"] = true
+		key, nonce := r.sliceBytes(args[0].(Slice)), r.sliceBytes(args[1].(Slice))
+		pt, aad := r.sliceBytes(args[2].(Slice)), r.sliceBytes(args[3].(Slice))
+		ts := []*Term{catBytes(r, key), catBytes(r, nonce)}
+		if len(pt) > 0 {
+			ts = append(ts, catBytes(r, pt))
+		}
+		if len(aad) > 0 {
+			ts = append(ts, catBytes(r, aad))
+		}
+		name := fmt.Sprintf("gcm_%d_%d_%d_%d", len(key), len(nonce), len(pt), len(aad))
+		return splitBytes(r, r.ctx().UF(name, (len(pt)+16)*8, ts...), "gcm-seal")
+	}
+	m["vh/vstub.OpenMatch"] = func(r *Run, caller *frame, fn *ssa.Function, args []Value) Value {
+		r.stubs["AES-GCM Open succeeds exactly on the output of a Seal with the same key, nonce and aad (authenticity assumed)"] = true
+		key, nonce := r.sliceBytes(args[0].(Slice)), r.sliceBytes(args[1].(Slice))
+		ct, aad := r.sliceBytes(args[2].(Slice)), r.sliceBytes(args[3].(Slice))
+		c := catBytes(r, ct)
+		fail := Tuple{Slice{}, r.ctx().False}
+		pl := len(ct) - 16
+		if c.op != OUF || c.name != fmt.Sprintf("gcm_%d_%d_%d_%d", len(key), len(nonce), pl, len(aad)) {
+			return fail
+		}
+		if c.a[0] != catBytes(r, key) || c.a[1] != catBytes(r, nonce) {
+			return fail
+		}
+		idx := 2
+		var ptT *Term
+		if pl > 0 {
+			ptT = c.a[idx]
+			idx++
+		}
+		if len(aad) > 0 && c.a[idx] != catBytes(r, aad) {
+			return fail
+		}
+		if ptT == nil {
+			o := r.allocArray(types.Typ[types.Uint8], 0, "gcm-open")
+			return Tuple{Slice{obj: o}, r.ctx().True}
+		}
+		return Tuple{splitBytes(r, ptT, "gcm-open"), r.ctx().True}
+	}
+	m["vh/vstub.KeystreamUF"] = func(r *Run, caller *frame, fn *ssa.Function, args []Value) Value {
+		r.stubs["AES-CTR keystream as an uninterpreted function of (key, iv, position)"] = true
+		key := catBytes(r, r.sliceBytes(args[0].(Slice)))
+		iv := catBytes(r, r.sliceBytes(args[1].(Slice)))
+		pos := r.termOf(args[2], "keystream pos")
+		return r.ctx().UF(fmt.Sprintf("ctr%d", key.w), 8, key, iv, pos)
+	}
+	m["crypto/subtle.XORBytes"] = func(r *Run, caller *frame, fn *ssa.Function, args []Value) Value {
+		dst, x, y := args[0].(Slice), args[1].(Slice), args[2].(Slice)
+		n := x.len
+		if y.len < n {
+			n = y.len
+		}
+		if n == 0 {
+			return r.ctx().Const(64, 0)
+		}
+		if dst.len < n {
+			r.goPanicRuntimeStr("subtle.XORBytes: dst too short")
+		}
+		xb, yb := r.sliceBytes(Slice{x.obj, x.off, n, n}), r.sliceBytes(Slice{y.obj, y.off, n, n})
+		for i := 0; i < n; i++ {
+			r.storeCell(Ptr{obj: dst.obj, off: dst.off}, i, r.ctx().Bin(OXor, xb[i], yb[i]))
+		}
+		return r.ctx().Const(64, uint64(n))
+	}
+	overlap := func(inexact bool) intrinsic {
+		return func(r *Run, caller *frame, fn *ssa.Function, args []Value) Value {
+			a, b := args[0].(Slice), args[1].(Slice)
+			if a.len == 0 || b.len == 0 || a.obj != b.obj {
+				return r.ctx().False
+			}
+			any := a.off < b.off+b.len && b.off < a.off+a.len
+			if inexact {
+				return r.ctx().Bool(any && a.off != b.off)
+			}
+			return r.ctx().Bool(any)
+		}
+	}
+	m["crypto/internal/alias.InexactOverlap"] = overlap(true)
+	m["crypto/internal/alias.AnyOverlap"] = overlap(false)
 	digestNames := []string{"", "md5", "sha1", "sha224", "sha256", "sha384", "sha512", "sha512_224", "sha512_256"}
 	digestSizes := []int{0, 16, 20, 28, 32, 48, 64, 28, 32}
 	m["vh/vstub.DigestUF"] = func(r *Run, caller *frame, fn *ssa.Function, args []Value) Value {
